@@ -414,7 +414,7 @@ def run_C09(tier, seed):
         if w.get("error"):
             viol.append(error_violation("C09", w)); continue
         n += w["checks"]
-        for kind, msg in w["msgs"][:1]:
+        for kind, msg in sorted(w["msgs"], key=lambda km: km[0] == "program")[:1]:
             viol.append({"property": "C09", "signature": "C09:" + kind + ":" + msg.split("(")[0], "what": msg, "case": w["case"], "failing_input": kind != "program",
                          **({"theorem_or_correspondence": "PetriNet.trap_program / deadlock_program vs the text sent to clingo"} if kind == "program" else {})})
     good = [w for w in ws if not w.get("error")]
